@@ -3,7 +3,7 @@ C15 - results depend only on text and settings, not on what ran before.
 
 Explicit enumeration of event histories on the *process-global* state of the library (MasterConfig
 defaults, TRS cache content, TRS._USE_CACHE, objects kept alive, previously returned dicts/lists):
-every sequence of up to 3 (quick) / 4 (thorough) events from a menu of 18, followed by a probe battery
+every sequence of up to 3 (quick) / 4 (thorough) events from a menu of 19, followed by a probe battery
 whose observations must equal those of the same battery in a *fresh interpreter* started with the
 MasterConfig values in force at probe time; then MasterConfig is restored and the battery must equal
 the pristine one.
@@ -23,7 +23,7 @@ STATES_FROM_OUTCOMES = True    # distinct canonical global states reached
 LEVEL = 'model_checking'
 TECHNIQUE = ('exhaustive enumeration of event histories on process-global state (defaults, TRS cache, cache switch, mutated return '
              'values, live objects) followed by a probe battery; differential oracle = same battery in a fresh interpreter')
-LEVEL_TEXT = ('All histories of up to 3 (quick) / 4 (thorough) events out of 18 - parse other descriptions whose TRS strings collide '
+LEVEL_TEXT = ('All histories of up to 3 (quick) / 4 (thorough) events out of 19 - re-use of one caller-held Config object with per-call overrides, parse other descriptions whose TRS strings collide '
               'with the probes up to direction letters, set/restore each MasterConfig default, clear / disable / enable / pre-warm the '
               'TRS cache, mutate every dict and list previously returned by the conversion functions, create objects under other '
               'defaults and keep them alive - are executed in one process and followed by a 60-observation probe battery compared with '
@@ -169,7 +169,26 @@ def ev_reparse_kept():
             k.parse(clean_qq=True)
 
 
-EVENTS = [ev_parse_other_dirs, ev_parse_dirless, ev_parse_same_text_other_cfg, ev_parse_ocr, ev_parse_modes, ev_ns_s, ev_ns_n, ev_ew_e, ev_ew_w, ev_clear,
+def ev_shared_config():
+    """The caller keeps one Config object and uses it for several objects, with per-call overrides in between."""
+    from .. import c15_probe
+    cfg = c15_probe.SHARED.get('cfg')
+    if cfg is None:
+        cfg = c15_probe.SHARED['cfg'] = _p.Config('n,w')
+    d = _p.PLSSDesc('T154N-R97W Sec 14: N/2, NE', config=cfg, parse_qq=True)
+    d.parse(qq_depth=1, clean_qq=True, commit=False)
+    d.parse(qq_depth_min=3, break_halves=True, segment=True, ocr_scrub=True)
+    d.parse_tracts(qq_depth_max=1, suppress_lot_divs=True)
+    t = _p.Tract('NE, N/2 of Lot 1', trs='154n97w14', config=cfg, parse_qq=True)
+    t.parse(clean_qq=True, qq_depth=1)
+    tl = _p.TractList([t])
+    tl.parse_tracts(config=cfg, clean_qq=True)
+    d2 = _p.PLSSDesc('NE/4 of Sec 1, T1-R2', wait_to_parse=True)
+    d2.config = cfg
+    d2.parse(default_ns='s', default_ew='e', parse_qq=True)
+
+
+EVENTS = [ev_shared_config, ev_parse_other_dirs, ev_parse_dirless, ev_parse_same_text_other_cfg, ev_parse_ocr, ev_parse_modes, ev_ns_s, ev_ns_n, ev_ew_e, ev_ew_w, ev_clear,
           ev_nocache, ev_cache, ev_warm, ev_mutate_dicts, ev_mutate_returned, ev_keep_objects, ev_sort_kept, ev_reparse_kept]
 NAMES = [e.__name__[3:] for e in EVENTS]
 
@@ -181,12 +200,15 @@ def reset():
     TRS._clear_cache()
     keep.clear()
     _last.clear()
+    from .. import c15_probe
+    c15_probe.SHARED.clear()
 
 
 def global_state():
     MC, TRS = _p.MasterConfig, _p.TRS
     cache = getattr(TRS, '_TRS__CACHE', {})
-    return (MC.default_ns, MC.default_ew, TRS._USE_CACHE, tuple(sorted(map(str, cache.keys()))), len(keep))
+    from .. import c15_probe
+    return (MC.default_ns, MC.default_ew, TRS._USE_CACHE, tuple(sorted(map(str, cache.keys()))), len(keep), 'cfg' in c15_probe.SHARED)
 
 
 def fresh_reference(ns, ew):
